@@ -26,6 +26,8 @@ def main():
         if pid == 0:
             os.close(r)
             try:
+                if req.get("case_s"):
+                    os.environ["VERIF_CASE_S"] = str(req["case_s"])
                 mod, fn = req["func"].rsplit(".", 1)
                 res = {"ok": getattr(importlib.import_module(mod), fn)(req["payload"])}
                 data = json.dumps(res, default=str).encode()
@@ -52,7 +54,7 @@ class Client:
                                   cwd=R.VERIF, env=env, text=True, bufsize=1)
 
     def call(self, func, payload):
-        self.p.stdin.write(json.dumps({"func": func, "payload": payload}) + "\n")
+        self.p.stdin.write(json.dumps({"func": func, "payload": payload, "case_s": os.environ.get("VERIF_CASE_S")}) + "\n")
         self.p.stdin.flush()
         line = self.p.stdout.readline()
         if not line:
